@@ -725,6 +725,18 @@ class Lib(object):
             yield bad, Raised(TypeError, ExcObj(TypeError))
             yield st, SVal(self.spec.uf["seq_of"](z3.IntVal(2 if f is reversed else 3), args[0].z))
             return
+        import threading as _th, itertools as _it2
+        for ctor, clsname, init in ((_th.Lock, "Lock", {"held": False}), (_th.Condition, "Condition", {}), (_it2.count, "count", {"nxt": None})):
+            if f is ctor and len(args) <= 1 and not kwargs:
+                # a NEW library object (lock: not held; counter: starting at its argument, default 0)
+                self.used.add("%s(): a new object of the library model class %s" % (getattr(ctor, "__name__", clsname), clsname))
+                o = Obj(clsname, "%s@L%d" % (clsname, ln), allocated=True)
+                for fld, v in init.items():
+                    if fld == "nxt":
+                        v = args[0] if args else 0
+                    st.heap[(o.oid, fld)] = v
+                yield st, o
+                return
         if f is bytes and len(args) == 1 and isinstance(args[0], SVal) and not kwargs:
             yield st, engine.narrow(st, args[0], "bytes", node, "argument of bytes()")
             return
